@@ -18,6 +18,30 @@ class Cond:
         self.value = value
         self.subject = subject   # for 'variant': value whose discriminant is tested
         self.enum = enum
+        self._slicer = None
+
+    def views(self):
+        """[(value, outcome)]: the tested value as written, and — when it is the result of a private boolean helper
+        (`if is_symlink(p)`) — the helper's returned expression in this function's terms"""
+        out = [(self.value, self.outcome)]
+        v, oc = self.value, self.outcome
+        for _ in range(4):
+            if self.kind != 'bool' or self._slicer is None:
+                break
+            if v[0] == 'call':
+                iv = self._slicer.inline_call(v)
+            elif v[0] == 'unwrap' and v[1][0] == 'call':
+                iv = self._slicer.inline_call(v[1])
+                iv = self._slicer.mk_unwrap(iv, 1) if iv is not None else None
+            else:
+                break
+            if iv is None:
+                break
+            while iv[0] == 'un' and iv[1] == 'Not':
+                iv, oc = iv[2], (not oc)
+            out.append((iv, oc))
+            v = iv
+        return out
 
     def __repr__(self):
         from .value import vstr
@@ -102,7 +126,9 @@ def conditions(fn, bb, slicer, unwind=False):
                 while val[0] == 'un' and val[1] == 'Not':
                     val = val[2]
                     outcome = not outcome
-                out.append(Cond(fn, sb, tb, 'bool', outcome, val))
+                cd = Cond(fn, sb, tb, 'bool', outcome, val)
+                cd._slicer = slicer
+                out.append(cd)
             else:
                 if labels == ['else']:
                     out.append(Cond(fn, sb, tb, 'int', ('not', tuple(listed)), val))
